@@ -261,6 +261,10 @@ def run(ctx):
     from props import glue
     glue.realpath_follows_fs(ctx)
     glue.dirfd_dangling(ctx)
+    from props import clauses
+    clauses.windows_separators(ctx)
+    glue.copied_matchers(ctx)
+    clauses.matchbase_inert(ctx)
     return ctx.finish(RULE)
 
 
